@@ -2189,7 +2189,10 @@ def _raw_test_is_guarded(repo: Repo, f: FuncInfo, test: ast.expr, hay_e: ast.exp
                     continue  # "no": never wrong for a string that only has the raw prefix
                 whole = f_and([ge, v]) if isinstance(e_.value, (ast.BoolOp, ast.Compare, ast.UnaryOp, ast.Call)) and _evidence_goal(repo, f, f_and([ge, v]), hay_e, needle_e) is not None and _evidence_goal(repo, f, ge, hay_e, needle_e) is None else ge
             if not _has_evidence(repo, f, whole, hay_e, needle_e):
-                return None
+                # the branch taken when the next character is known NOT to be a separator is a decision on the boundary as well
+                goal = _evidence_goal(repo, f, whole, hay_e, needle_e)
+                if goal is None or not implies(whole, f_not(goal)):
+                    return None
         if dependent:
             return "everything that depends on this raw prefix test is additionally guarded by a test of the next character"
     except AnalysisError:
@@ -3174,7 +3177,9 @@ def fixture_selfcheck() -> str:
         defs = [n for c in [tree, *[c for c in tree.body if isinstance(c, ast.ClassDef)]] for n in c.body if isinstance(n, ast.FunctionDef)]
         want_unsafe = [n.name for n in defs if n.name.startswith("unsafe_")]
         want_safe = [n.name for n in defs if n.name.startswith("safe_") or n.name.startswith("_safe_")]
+        want_notsafe = [n.name for n in defs if n.name.startswith("notsafe_")]  # must not be accepted (unsafe or undecided)
         bad = [n for n in want_unsafe if "unsafe" not in by_fn.get(n, set())] + [n for n in want_safe if by_fn.get(n, set()) - {"safe", "not-name", "reviewed"} or not by_fn.get(n)]
+        bad += [n for n in want_notsafe if not (by_fn.get(n, set()) & {"unsafe", "unknown"})]
         if bad:
             raise AnalysisError(f"F-NAME fixture: idioms not classified as expected: {bad} (got { {k: sorted(v) for k, v in by_fn.items() if k in bad} })")
         return f"{len(want_unsafe)} unsafe and {len(want_safe)} safe idioms of engine/fixtures/name_ops.py classified as expected"
